@@ -3,6 +3,8 @@
 package templang
 
 import (
+	"crypto/sha256"
+	"encoding/hex"
 	"encoding/json"
 	"fmt"
 	"strings"
@@ -58,10 +60,13 @@ type Tok struct {
 	T     string `json:"t"` // open close word val comment raw doctype
 	N     string `json:"n"`
 	G     string `json:"g"` // must mustnot may : separator requirement to the previous token
-	Attrs []struct {
-		N string `json:"n"`
-		V string `json:"v"`
-	} `json:"attrs"`
+	Attrs []TokAttr `json:"attrs"`
+}
+
+// TokAttr is one denoted attribute: name and symbolic value.
+type TokAttr struct {
+	N string `json:"n"`
+	V string `json:"v"`
 }
 
 // Env is one environment of the spec.
@@ -130,6 +135,13 @@ var (
 	RawContents = map[string]string{"style": "p{color:red}", "script": "var x = 1 < 2 && 3 > 2;",
 		"scriptgo": "var a = {{ env.E(1) }}  \t;var b = [{{ env.E(1) }} , 2];"}
 )
+
+// CSSClassID is the id of a css template's class: its name and the first 8 hex digits of the SHA-256 of its text
+// (second key for the runtime's own computation).
+func CSSClassID(name, css string) string {
+	sum := sha256.Sum256([]byte(css))
+	return name + "_" + hex.EncodeToString(sum[:])[:8]
+}
 
 // RawElement is the element name of a raw node kind.
 func RawElement(name string) string {
@@ -267,6 +279,18 @@ func (p *printer) attrs(as []Attr, depth int) {
 				fmt.Fprintf(&p.sb, "%sclass={env.K(%s)}", sep, num(a.E))
 			} else {
 				fmt.Fprintf(&p.sb, "%sclass={ env.K(%s) }", sep, num(a.E))
+			}
+		case "cssclass":
+			if p.v == 1 {
+				fmt.Fprintf(&p.sb, "%sclass={boxed()}", sep)
+			} else {
+				fmt.Fprintf(&p.sb, "%sclass={ boxed() }", sep)
+			}
+		case "scriptcall":
+			if p.v == 1 {
+				fmt.Fprintf(&p.sb, "%sonclick={greet(\"x\")}", sep)
+			} else {
+				fmt.Fprintf(&p.sb, "%sonclick={ greet(\"x\") }", sep)
 			}
 		case "class2":
 			if p.v == 1 {
